@@ -24,6 +24,8 @@ type WorkerArgs struct {
 	Samples int    `json:"samples"` // number of runs for which full detail is kept
 	Resample int   `json:"resample"` // every Resample-th run is executed twice to compare hashes
 	DeadlineS int  `json:"deadline_s"`
+	Enumerate string `json:"enumerate,omitempty"`
+	Serve     bool   `json:"serve,omitempty"`
 }
 
 // runOne executes one run in a fresh synctest bubble.
@@ -81,6 +83,10 @@ func TestSim(t *testing.T) {
 	if err := json.Unmarshal([]byte(raw), &wa); err != nil {
 		t.Fatalf("bad VERIF_WORKER: %v", err)
 	}
+	if wa.Serve {
+		serve(t)
+		return
+	}
 	f, err := os.Create(wa.Out)
 	if err != nil {
 		t.Fatal(err)
@@ -100,6 +106,19 @@ func TestSim(t *testing.T) {
 		}
 		spec := wa.Spec
 		spec.Index = i
+		if wa.Enumerate != "" && !spec.Replay {
+			enumerate(t, wa, spec, func(res *RunResult) {
+				res.StateSet = nil
+				if len(res.Viol) == 0 && res.Infra == "" && n >= wa.Samples {
+					res.Lines, res.Tapes, res.Desc, res.Decisions = nil, nil, nil, nil
+				}
+				if err := enc.Encode(res); err != nil {
+					t.Fatal(err)
+				}
+				n++
+			})
+			continue
+		}
 		res := runOne(t, spec)
 		if wa.Resample > 0 && n%wa.Resample == 0 && res.Infra == "" {
 			res2 := runOne(t, spec)
@@ -113,10 +132,50 @@ func TestSim(t *testing.T) {
 		if !full {
 			res.Lines, res.Tapes, res.Desc, res.Decisions = nil, nil, nil, nil
 		}
+		if i%8 == 0 {
+			res.StateHashes = res.StateSet
+		}
 		res.StateSet = nil
 		if err := enc.Encode(res); err != nil {
 			t.Fatal(err)
 		}
 		n++
 	}
+}
+
+// serve executes specs read from stdin (one JSON object per line) and answers
+// each with one "@@RES {json}" line on stdout. Used by the minimiser.
+func serve(t *testing.T) {
+	sc := bufio.NewScanner(os.Stdin)
+	sc.Buffer(make([]byte, 1<<20), 64<<20)
+	out := bufio.NewWriter(os.Stdout)
+	for sc.Scan() {
+		var spec RunSpec
+		if err := json.Unmarshal(sc.Bytes(), &spec); err != nil {
+			fmt.Fprintf(out, "@@RES {\"infra\":%q}\n", err.Error())
+			out.Flush()
+			continue
+		}
+		res := runOne(t, spec)
+		res.StateSet = nil
+		if !spec.Verbose {
+			res.Lines = nil
+		}
+		b, _ := json.Marshal(res)
+		out.WriteString("@@RES ")
+		out.Write(b)
+		out.WriteByte('\n')
+		out.Flush()
+	}
+}
+
+// enumerate is replaced by engines that support fault enumeration.
+var enumerators = map[string]func(t *testing.T, wa WorkerArgs, spec RunSpec, emit func(*RunResult)){}
+
+func enumerate(t *testing.T, wa WorkerArgs, spec RunSpec, emit func(*RunResult)) {
+	if f, ok := enumerators[wa.Enumerate]; ok {
+		f(t, wa, spec, emit)
+		return
+	}
+	emit(&RunResult{Index: spec.Index, Seed: spec.Seed, Infra: "unknown enumerator " + wa.Enumerate})
 }
